@@ -29,6 +29,9 @@ type gateSrc struct {
 	doneK  int
 	busy   atomic.Int32 // Next calls in flight
 	closed atomic.Int32
+	kids   int // > 0: every Next derives this many child contexts from its context before it blocks, so that cancelling
+	// the context takes a while (the caller of cancel() is busy while the waiters already run)
+	keep []context.CancelFunc
 }
 
 func (s *gateSrc) Next(ctx context.Context) (int, error) {
@@ -44,6 +47,11 @@ func (s *gateSrc) Next(ctx context.Context) (int, error) {
 			return 0, errSrc
 		}
 		return 0, stream.End
+	}
+	for i := 0; i < s.kids; i++ {
+		c, cf := context.WithCancel(ctx)
+		_, cf2 := context.WithCancel(c)
+		s.keep = append(s.keep, cf, cf2)
 	}
 	select {
 	case m := <-s.q:
